@@ -253,6 +253,56 @@ impl Matcher {
         }
         merged.push(current);
 
+        Self::merge_split_acquisitions(merged)
+    }
+
+    /// Fold every further BUY of a security on a day into that day's first BUY.
+    ///
+    /// All of a day's acquisitions of a security are one acquisition for matching
+    /// (TCGA92/S105(1)(a)). The pass above only merges adjacent lines, so buys separated
+    /// by another security's line (or by a SELL) would otherwise stay separate lots and
+    /// the 30-day rule would price shares from whichever lot its line order reached first.
+    fn merge_split_acquisitions(transactions: Vec<GbpTransaction>) -> Vec<GbpTransaction> {
+        let mut merged: Vec<GbpTransaction> = Vec::with_capacity(transactions.len());
+        let mut day_start = 0;
+
+        for next in transactions {
+            if merged.last().is_some_and(|last| last.date != next.date) {
+                day_start = merged.len();
+            }
+
+            if let Operation::Buy {
+                amount: next_amount,
+                price: next_price,
+                fees: next_fees,
+            } = &next.operation
+            {
+                let earlier_buy = merged
+                    .iter_mut()
+                    .skip(day_start)
+                    .filter(|tx| tx.ticker == next.ticker)
+                    .find_map(|tx| match &mut tx.operation {
+                        Operation::Buy {
+                            amount,
+                            price,
+                            fees,
+                        } => Some((amount, price, fees)),
+                        _ => None,
+                    });
+                if let Some((amount, price, fees)) = earlier_buy {
+                    let total_cost = (*amount * *price) + (*next_amount * *next_price);
+                    *amount += *next_amount;
+                    if *amount != Decimal::ZERO {
+                        *price = total_cost / *amount;
+                    }
+                    *fees += *next_fees;
+                    continue;
+                }
+            }
+
+            merged.push(next);
+        }
+
         merged
     }
 
